@@ -230,12 +230,32 @@ fn hmc_case(rep: &mut Report, case: u64, g: &mut Sm64) {
         if seeded {
             s = s.set_seed(seed);
         }
+        mini_mcmc::verif::enable();
         let out = s.run(3, 0);
-        tv(&out)
+        let ev = mini_mcmc::verif::take();
+        mini_mcmc::verif::disable();
+        (tv(&out), ev)
     });
     match r {
         Err(m) => rep.violation("HMC panic", mon, case, json!({"cfg": cj, "panic": m})),
-        Ok(v) => {
+        Ok((v, events)) => {
+            // the draws themselves (hook): every row of a step has its own momentum and its own acceptance draw
+            for (si, e) in events.iter().enumerate() {
+                if let mini_mcmc::verif::Event::HmcStep { momenta, uniforms, .. } = e {
+                    for i in 0..n_chains {
+                        for j in 0..i {
+                            if uniforms[i].to_bits() == uniforms[j].to_bits() {
+                                rep.violation("HMC two-rows-share-an-acceptance-draw", mon, case, json!({"cfg": cj, "step": si, "rows": [j, i], "u": uniforms[i]}));
+                                return;
+                            }
+                            if bits_eq(&momenta[i * dim..(i + 1) * dim], &momenta[j * dim..(j + 1) * dim]) {
+                                rep.violation("HMC two-rows-share-a-momentum-draw", mon, case, json!({"cfg": cj, "step": si, "rows": [j, i]}));
+                                return;
+                            }
+                        }
+                    }
+                }
+            }
             // [n_chains, 3, dim]
             for i in 0..n_chains {
                 for j in 0..i {
